@@ -93,6 +93,8 @@ __all__ = [
     'read_string',
     'read_list',
     'kg_read',
+    'KGToken',
+    'is_token',
     'kg_read_array',
     'read_cond',
     'list_to_dict',
